@@ -57,6 +57,16 @@ CLAIMED.update({
         ref="DESIGN.md 3/C06"),
 })
 
+CLAIMED.update({
+    "C07": dict(
+        text="Proof on the real Class._mro (cycle reported as ValueError before any recursion; `seen` extended by the own path before recursing = termination "
+             "variant; result [self, *merge(base linearizations, bases)]) and ObjectAliasMixin.all_members (own members never shadowed). "
+             "Object.inherited_members (nearest definition in MRO order wins, inherited aliases under the subclass path, uncomputable MRO => {}) is verified "
+             "symbolically for bounded sizes; c3linear_merge == C3 and whole-hierarchy agreement with CPython are a bounded exhaustive tier (type() as oracle).",
+        note="At most 3 resolved bases (the property's bound); c3linear_merge taken by contract inside _mro; bounded parts are labelled and never counted as proved.",
+        ref="DESIGN.md 3/C07"),
+})
+
 NA_REASON = {
     "C17": "relates two whole-program analyses through CPython's run-time object model; a contract for the inspector would have to assume the very "
            "object model the property compares against, so no obligation over /repo code alone implies agreement (DESIGN.md section 4)",
